@@ -174,7 +174,6 @@ def cmdParseSpecial (a : List String) : String :=
   | input :: hintArgs =>
     let idna := mkIdna (parseHints hintArgs)
     match Model.ParseSpecial.parseNoBase idna (unhexs input) with
-    | .other => "other"
     | .invalid => "invalid"
     | .ok r =>
       match findMarker idna (r.host.getD []) with
